@@ -54,6 +54,96 @@ def gen_case(rng, tier):
     raise C.HarnessError("generator could not produce an admissible case")
 
 
+def gen_bound_case(rng, tier):
+    """stratum: edge templates with a further input bound to an explicit variable path (Kuramoto-type coupling g*(pre - post)); all nodes share one node
+    template and differ by overrides, so vectorization merges them and the bound path addresses a member that is not the first of its group"""
+    for _ in range(80):
+        n = rng.randint(3, 5)
+        ops = {"P": {"name": "ph", "eqs": [{"lhs": "th", "de": True, "rhs": M.add(M.var("om"), M.mul(M.var("K"), M.var("s_in")))}],
+                     "vars": {"th": {"decl": "output", "value": "0"}, "om": {"decl": "const", "value": "1"}, "K": {"decl": "const", "value": "1"}, "s_in": {"decl": "input", "value": "0"}}},
+               "E": {"name": "cp", "eqs": [{"lhs": "s", "de": False, "rhs": M.mul(M.var("g"), M.sub(M.var("u_s"), M.var("u_t")))}],
+                     "vars": {"s": {"decl": "output", "value": "0"}, "u_s": {"decl": "input", "value": "0"}, "u_t": {"decl": "input", "value": "0"}, "g": {"decl": "const", "value": "2"}}}}
+        labels = rng.sample(["p0", "p1", "p2", "q", "pop", "e1"], n)
+        nts = {f"N{i}": {"name": f"nt{i}", "ops": ["P"], "overrides": {"P": {"th": str(F(rng.randint(-4, 4), 2)), "om": str(F(rng.randint(-2, 3))), "K": str(F(rng.choice([1, 2, -1])))}}} for i in range(n)}
+        edges, used = [], set()
+        for _k in range(rng.randint(2, 2 * n)):
+            s_, t_ = rng.sample(labels, 2)
+            if (s_, t_) in used:
+                continue
+            used.add((s_, t_))
+            bound_to = t_ if rng.random() < 0.7 else rng.choice(labels)       # usually the post-synaptic phase, sometimes a third node's
+            edges.append({"src": f"{s_}/ph/th", "tgt": f"{t_}/ph/s_in", "w": str(F(rng.choice([1, 2, 3, -1]), rng.choice([1, 2]))), "template": "ET",
+                          "bind": {"u_t": f"{bound_to}/ph/th"}})
+        mdl = {"ops": ops, "node_templates": nts, "edge_templates": {"ET": {"name": "cpe", "op": "E"}},
+               "circuit": {"name": "net", "nodes": {lb: f"N{i}" for i, lb in enumerate(labels)}, "edges": edges}}
+        flat = M.flatten(mdl)
+        sp = [p for p in M.state_paths(flat) if not p.startswith("__")]
+        reqs = rng.sample(sp, rng.randint(1, len(sp))) if rng.random() < 0.5 else ["all/ph/th"]
+        form = "dict"
+        dt = F(1, 2)
+        case = {"mdl": mdl, "run": {"T": C.q2s(dt * 3), "dt": C.q2s(dt), "solver": "euler", "outputs": {f"k{i}": r for i, r in enumerate(reqs)}, "vectorize": rng.random() < 0.7},
+                "style": {}, "in_place": rng.random() < 0.5, "form": form, "bound_edges": True}
+        o = N.oracle_traj(case)
+        if "error" in o or o["bits"] > 44:
+            continue
+        return case
+    raise C.HarnessError("generator could not produce an admissible bound-edge case")
+
+
+def positions_probe(case):
+    """get_run_func on the template (in place), then get_variable_positions(path) for every state variable: the positions must be a bijection onto the state
+    vector and the vector field evaluated with a state filled through them must be the model's, variable by variable"""
+    import warnings
+    import numpy as np
+    with M.Scratch():
+        with warnings.catch_warnings():
+            warnings.simplefilter("ignore")
+            try:
+                c, _, _ = M.build_pyrates(case["mdl"])
+                func, args, names, smap = c.get_run_func("pf", step_size=0.125, solver="euler", vectorize=case["vectorize"], float_precision="float64", verbose=False,
+                                                         clear=False, in_place=True)
+                n = len(np.asarray(args[1]))
+                pos = {}
+                for p in case["state_paths"]:
+                    omap, _ = c.get_variable_positions({"k": p})
+                    v = np.asarray(omap["k"]).reshape(-1)
+                    pos[p] = [int(x) for x in v]
+                y = np.zeros(n)
+                for p, idx in pos.items():
+                    if len(idx) == 1 and 0 <= idx[0] < n:
+                        y[idx[0]] = float(F(case["point"][p]))
+                dy = np.asarray(func(0.0, y, *args[2:]), dtype=float)
+                return {"pos": pos, "n": n, "dy": {p: C.f2s(dy[idx[0]]) for p, idx in pos.items() if len(idx) == 1 and 0 <= idx[0] < n}}
+            except Exception as e:
+                return {"error": type(e).__name__, "msg": str(e)[:300]}
+
+
+def gen_positions_case(rng, tier):
+    for _ in range(100):
+        mdl = G.gen_model(rng, max_nodes=4, min_nodes=2, linear=True, clones=True, depth=rng.choice([0, 0, 1]), hostile=rng.random() < 0.3)
+        flat = M.flatten(mdl)
+        sp = M.state_paths(flat)
+        if len(set(sp)) != len(sp) or len(sp) > 8:
+            continue
+        vec = rng.random() < 0.6
+        if vec:
+            # C04's regions are not re-tested here: vectorized cases keep edges that leave state variables, one per target
+            if mdl["circuit"].get("circuits"):
+                continue
+            seen, es = set(), []
+            for e in mdl["circuit"].get("edges", []):
+                if e["src"] in sp and e["tgt"] not in seen:
+                    seen.add(e["tgt"])
+                    es.append(e)
+            mdl["circuit"]["edges"] = es
+        pt = {p: C.q2s(F(rng.randint(-3, 3), rng.choice([1, 2]))) for p in sp}
+        o = N.oracle_case({"mdl": mdl, "points": [pt], "pis": [{}], "interp": {}})
+        if "error" in o or o["bits"] > 40:
+            continue
+        return {"mdl": mdl, "vectorize": vec, "state_paths": sp, "point": pt, "expected": o["dy"][0]}
+    raise C.HarnessError("generator could not produce an admissible positions case")
+
+
 def denoted(case, flat, label):
     """which variable path does a column label denote?  -> (path or None, why)"""
     outs = case["run"]["outputs"]
@@ -169,12 +259,13 @@ def check(tier, seed, replay=None):
     rep.cov["rule"] = ("random linear models (2-5 nodes per circuit, hierarchy depth 0-2, structurally identical nodes with different initial values and parameters so that a "
                        "swapped column is visible) simulated by run(); output request = 1-3 paths in dict or list form, each a single node, 'all', or a mix of 'all' and labels per "
                        "hierarchy level; vectorize on/off.  Every returned column is mapped back to the variable its label names and compared exactly with that variable's "
-                       "trajectory in the Lean model/oracle; every requested variable must appear once.  distinct = distinct cases; non-trivial = a wildcard or >= 2 keys")
+                       "trajectory in the Lean model/oracle; every requested variable must appear once.  P stream: get_run_func (in place) followed by get_variable_positions(path) for every state variable - a bijection onto the state vector, and the vector field evaluated through these positions is the model's, variable by variable.  Bound-edge stratum: edge templates with a further input bound to an explicit variable path.  distinct = distinct cases; non-trivial = a wildcard or >= 2 keys")
     if replay:
         cases = [json.load(open(replay))["case"]]
     else:
         cases = [json.load(open(f))["case"] for f in sorted(glob.glob(os.path.join(C.VERIF, "corpus", PID, "*.json")))]
         cases += [gen_case(rng, tier) for _ in range(160 if tier == "quick" else 2500)]
+        cases += [gen_bound_case(rng, tier) for _ in range(12 if tier == "quick" else 150)]
     orcs = [N.oracle_traj(c) for c in cases]
     impl = C.run_forked(N.impl_run, cases, timeout=240)
     drv = C.Driver()
@@ -185,7 +276,7 @@ def check(tier, seed, replay=None):
             raise C.HarnessError("harness child crashed: " + str(im)[:800])
         outs = case["run"]["outputs"]
         reqs = list(outs.values()) if isinstance(outs, dict) else outs
-        rep.count(f"{case['form']}-{'vec' if case['run']['vectorize'] else 'novec'}" + ("-second-run-on-template" if case.get("first_run") else ""), json.dumps(case, sort_keys=True), nontrivial=(len(reqs) > 1 or any("all" in r.split("/") for r in reqs)))
+        rep.count(f"{case['form']}-{'vec' if case['run']['vectorize'] else 'novec'}" + ("-second-run-on-template" if case.get("first_run") else "") + ("-bound-edge-input" if case.get("bound_edges") else ""), json.dumps(case, sort_keys=True), nontrivial=(len(reqs) > 1 or any("all" in r.split("/") for r in reqs)))
         mr = drv.ask(N.model_traj_request(case, orc["flat"]))
         if mr.get("rows") != orc["rows"]:
             raise C.HarnessError("Lean model and oracle disagree: " + json.dumps(case)[:400])
@@ -199,6 +290,27 @@ def check(tier, seed, replay=None):
         else:
             rep.validated()
     drv.close()
+    pbad = []
+    if not replay:
+        pcases = [gen_positions_case(rng, tier) for _ in range(40 if tier == "quick" else 500)]
+        pres = C.run_forked(positions_probe, pcases, timeout=240)
+        for pc, pr in zip(pcases, pres):
+            if "crash" in pr:
+                raise C.HarnessError("positions probe crashed: " + str(pr)[:600])
+            rep.count("P-get_variable_positions" + ("-vec" if pc["vectorize"] else ""), json.dumps(pc, sort_keys=True), nontrivial=len(pc["state_paths"]) >= 3)
+            if "error" in pr:
+                pbad.append({"case": pc, "what": "get_variable_positions after get_run_func raises", "impl": pr})
+                continue
+            flatpos = [i for idx in pr["pos"].values() for i in idx]
+            if any(len(idx) != 1 for idx in pr["pos"].values()) or sorted(flatpos) != list(range(pr["n"])):
+                pbad.append({"case": pc, "what": "the positions of the state variables are not a bijection onto the state vector", "positions": pr["pos"], "n": pr["n"]})
+                continue
+            wrong = sorted(p for p in pc["state_paths"] if pr["dy"].get(p) != pc["expected"][p])
+            if wrong:
+                pbad.append({"case": pc, "what": "the position returned for a variable path holds another variable", "variable": wrong[0], "position": pr["pos"][wrong[0]],
+                             "got": pr["dy"].get(wrong[0]), "expected": pc["expected"][wrong[0]]})
+            else:
+                rep.validated()
     if not replay:
         ucases, uimpl = unit_get_nodes(rng, 400 if tier == "quick" else 5000)
         drv2 = C.Driver()
@@ -220,7 +332,10 @@ def check(tier, seed, replay=None):
     if bad:
         case, im, dev = min(bad, key=lambda x: len(json.dumps(x[0]["mdl"])))
         rep.violation(f"a column of the DataFrame returned by run does not carry the variable named in its label ({dev[0][0]})", {"case": case, "impl": im, "deviations": dev[:4]})
-    elif not proof_ok:
+    if pbad:
+        b = min(pbad, key=lambda x: len(json.dumps(x["case"]["mdl"])))
+        rep.violation("get_variable_positions does not address the variable its path names: " + b["what"], b)
+    if not bad and not pbad and not proof_ok:
         why = {"proof_ok": proof_ok, "build_log_tail": detail["build_log_tail"], "forbidden": detail["forbidden"],
                "audit_failures": (detail["audit"] or {}).get("failures"), "broken": "theorems of PyRatesModel.Props.C06 (build/audit)"}
         rep.violation("C06 is no longer shown to hold: " + why["broken"], why, no_input=True, name="unproved")
